@@ -244,6 +244,10 @@ def gen_vhdx(thorough=False):
     yield 'vhdx metadata right after header', vhdx(meta_off=256 * KiB)
     yield 'vhdx metadata at 1MiB', vhdx(meta_off=1024 * KiB)
     yield 'vhdx item further away', vhdx(item_off=128 * KiB)
+    # compact layouts (the size item lies inside the first 64 KiB of the
+    # metadata region, right behind a short table)
+    yield 'vhdx compact, item at 2048', vhdx(item_off=2048, size=777)
+    yield 'vhdx compact, item at 256', vhdx(item_off=256, size=3 << 30)
     yield 'vhdx no metadata region', vhdx(regions=[])
     yield 'vhdx no size item', vhdx(meta_entries=[])
     yield 'vhdx bad region signature', vhdx(regi=0x69676573)
